@@ -153,13 +153,19 @@ def h_comparer_shape(E, comparer, detail):
     return outs
 
 
-def h_entry(E, shape, samples, credit, tolkind='abs'):
+def h_entry(E, shape, samples, credit, tolkind='abs', real_utils=False):
     from mitxgraders.comparers import MatrixEntryComparer
     cmp_ = MatrixEntryComparer(entry_partial_credit=credit)
     tol = E.real('tol', 0, 1) if tolkind == 'abs' else tolkind
     exps = [_arr(E, 'e%d_' % s, shape) for s in range(samples)]
     stus = [_arr(E, 's%d_' % s, shape) for s in range(samples)]
-    r = cmp_([[e] for e in exps], stus, utils_for(tol, matrix=True))
+    if real_utils:
+        # the utilities a MatrixGrader really hands to its comparers (tolerance, within_tolerance(expected, student), shape validation)
+        from mitxgraders import MatrixGrader
+        utils = MatrixGrader(answers='0', tolerance=tol, max_array_dim=2).get_comparer_utils()
+    else:
+        utils = utils_for(tol, matrix=True)
+    r = cmp_([[e] for e in exps], stus, utils)
     p = None if tolkind == 'abs' else Fraction(float(tolkind[:-1]) * 0.01)
 
     def close(e, s):
@@ -406,6 +412,8 @@ def harnesses(tier):
     for credit in (0.5, 'proportional'):
         add(h_entry, 'entry', dict(shape='2', samples=1, credit=credit, tol='5%'), 'symbolic entries, percentage tolerance (entry by entry)')
         hs[-1].params = ((2,), 1, credit, '5%')
+        add(h_entry, 'entry', dict(shape='2', samples=1, credit=credit, tol='10%', utils='MatrixGrader'), 'symbolic entries, percentage tolerance, the comparer utilities of a real MatrixGrader')
+        hs[-1].params = ((2,), 1, credit, '10%', True)
     add(h_equality_transform, 'equality_transform', {}, 'any reals')
     for raised in (True, False):
         for detail in ('type', 'shape', None):
